@@ -1,6 +1,8 @@
 """C03 - transmission errors in Teletext are corrected or contained, never shown as data.
 spec/TtxFaults.tla (+ spec/TtxX26.tla): reception of pages with a fault on every received packet: uncorrectable header page
-  number (all pages in progress abandoned), subcode S1/S2, S3/S4, control bits (terminates, opens nothing); text row with an
+  number (all pages in progress abandoned), subcode S1/S2, S3/S4, control bits (terminates, opens nothing), or wrong parity in
+  header TEXT bytes (the header acts like the intact one, no stored page is dropped, no channel switch is inferred; the header row
+  shows the transmitted character or a blank there); text row with an
   uncorrectable address (nothing) or wrong parity in k = 1, 2, 3, 40 bytes, adjacent or scattered (row keeps the stored content or
   stays blank), or in exactly the byte of one column that a column triplet of the page's X/26 packet addresses (forgiven only where
   the triplet's mode supplies the character of the position: TtxX26!CharModes; colour, flash, character set designation, display
@@ -18,7 +20,9 @@ GEN -> REPLAY: exhaustive scenario models (one behaviour per final state and fau
   spec's links; at the end the cache must hold exactly the versions the spec holds, with their content.
 TWIN: every single bit of every Hamming 8/4 byte and 24/18 triplet of base transmissions (header, rows, X/26, X/27, X/28, 8/30)
   flipped: events, fetched pages (Level 1, 1.5, 2.5), links, cache content must equal the error-free run; two bit errors in the
-  address or designation byte of a non-header packet or the link control byte of X/27/0: must equal the run without that packet."""
+  address or designation byte of a non-header packet or the link control byte of X/27/0: must equal the run without that packet;
+  one bit error in a header text byte (columns 8..39) of transmissions with several rolling header pages: events incl. NETWORK, cache
+  content, links and every other page must equal the error-free run."""
 import json, os, random, shutil, zlib
 from vlib import tlc, core, ttx
 from vlib import build as vbuild
@@ -30,12 +34,12 @@ MANIFEST = dict(
     technique="TLA+ specs TtxFaults (page reception with a fault model on every packet, magazines 1..8, clock subcodes, FLOF links) and "
               "TtxX26 (X/26 enhancement sub-language: which column triplet modes supply a character, lost triplets) checked exhaustively by "
               "TLC (OnlyTransmitted, EnhNotMisplaced, AddressFaultNothing, HeaderFaultOnlyAbandons, BadRowContained, ParityErrorContained, "
-              "DamagedLinkKept); generated damaged transmissions (exhaustive scenario models + random walks) replayed with the damage on "
+              "DamagedLinkKept, HeaderTextContained); generated damaged transmissions (exhaustive scenario models + random walks) replayed with the damage on "
               "concrete bits, fetched Level 1/1.5 pages and navigation links compared with the specification at every termination point, "
               "final cache compared with the specification's; every single bit of every Hamming protected unit flipped and compared with "
               "the error-free twin",
     text="TLC explores all interleavings of two magazines (incl. magazine 8) with up to two damaged packets: uncorrectable header page number, "
-         "subcode (S1/S2, S3/S4) or control bits, rows with an uncorrectable address or parity errors in 1, 2, 3 or 40 bytes or in exactly "
+         "subcode (S1/S2, S3/S4) or control bits, header text bytes with wrong parity, rows with an uncorrectable address or parity errors in 1, 2, 3 or 40 bytes or in exactly "
          "the column an X/26 triplet addresses, X/26 packets with an uncorrectable triplet at any of the 13 positions, uncorrectable "
          "designation bytes, X/27/0 packets with an uncorrectable link control byte or link; the stored pages are checked against the "
          "reference (only transmitted page/subpage numbers are stored, a damaged row or packet changes nothing, a damaged header only "
@@ -45,30 +49,59 @@ MANIFEST = dict(
          "with X/26 triplets of every column address mode (colours, mosaics, G0/G2/G3, flash, character set designation, display "
          "attributes, DRCS, font style, PDC, reserved, diacritical marks) and a row with a parity error exactly in the addressed column; "
          "a page cached with FLOF links retransmitted with different links and two bit errors in the designation, the link control byte "
-         "or each link - with the damage realised on seeded concrete bits; at every termination point the exact fetch at Level 1 and 1.5 "
-         "is compared cell by cell with the specification (enhancement characters where TtxX26 says they land), the navigation links "
+         "or each link; rolling header pages (<= 0x199 and serial mode) with a parity error in one or two header text bytes (page "
+         "number, text, clock columns) on first reception and on retransmission while two and more other pages are stored - with the "
+         "damage realised on seeded concrete bits; at every termination point the exact fetch at Level 1 and 1.5 "
+         "is compared cell by cell with the specification (enhancement characters where TtxX26 says they land; header row columns "
+         "8..39: the transmitted character, or a blank where the byte had a parity error), the navigation links "
          "of a fetch with navigation are compared with the specification's links, page events are counted, and at the end the cache "
          "must contain exactly the specification's versions with the specification's content; (2) for base transmissions incl. X/26, "
          "X/27 (also over stored links), X/28/0 and 8/30 packets every single bit of every Hamming 8/4 byte and 24/18 triplet flipped "
          "(events incl. network events, Level 1, 1.5, 2.5 fetches, links, cache content must equal the error-free run) and two bit errors "
-         "in the address or designation byte of non-header packets and the link control byte (must equal the run without the packet).",
+         "in the address or designation byte of non-header packets and the link control byte (must equal the run without the packet); "
+         "one bit error in every header text byte of transmissions with several rolling header pages and an identified network (events "
+         "incl. NETWORK, cache content, all other pages must equal the error-free run).",
     note="Bounded: <= 7 packets per exhaustive scenario, 16 per random walk, <= 3 damaged packets per behaviour. A header whose "
          "magazine/packet address is uncorrectable is not covered (no decoder can recognise it as a header; the rows that follow are filed "
          "under the previous page). A page retransmitted without erase repeats the enhancement data of its stored version. Where the "
          "statement leaves the outcome open the specification holds the set of allowed outcomes: a parity error at a position whose "
          "character the enhancement data supply (row as transmitted or earlier content), the links next to an uncorrectable link (new "
          "or earlier). Uncorrectable triplets of X/28 and 8/30 data bytes are compared for single bit errors only. Diacritical marks 9 "
-         "and 12 (no composed letters in libzvbi's repertoire) are not transmitted. Subcodes used are ones the cache stores verbatim.",
+         "and 12 (no composed letters in libzvbi's repertoire) are not transmitted. Subcodes used are ones the cache stores verbatim. "
+         "A header text byte with an even number of bit errors (valid parity, another character) is undetectable and not transmitted "
+         "(libzvbi takes it for a channel switch when the page is a rolling header page of the reference header's magazine).",
 )
 
 FAULT_ACTS = ("Header", "Filler", "Row", "X26", "Flof")
 HDR_BYTES = {"page": (2, 3), "s12": (4, 5), "s34": (6, 7), "ctrl": (8, 9)}
+HDR_PAGES = (0x100, 0x101, 0x102, 0x800, 0x801)      # page numbers of the models: their header rows are evaluated by TLC (TtxFormatL1)
+
+
+def hdr_ok(f):
+    """address and control bytes of the header are intact (TtxFaults!HdrOk): it terminates and opens like the error-free one"""
+    return f["f"] in ("ok", "htxt")
+
+
+def header_codes(pg):
+    """the 40 codes of the header row as transmitted (columns 0..7 are the decoder's: blank here)"""
+    return [0x20] * 8 + [b & 0x7F for b in ttx.header(pg)[10:42]]
 
 
 # ------------------------------------------------------------------------------------------------ row library (TtxFormatL1 by TLC)
 def setup(ctx):
     """row library of C02 plus an all-blank row (the last one); TLC evaluates the Level 1 presentation; -> lib, tab (flags), raw (cells)"""
-    lib, tab, raw = c02.eval_rowlib(ctx, c02.make_rowlib(random.Random(ctx.seed), 40), extra=[[0x20] * 40])
+    lib, tab, raw = c02.eval_rowlib(ctx, c02.make_rowlib(random.Random(ctx.seed), 40),
+                                    extra=[header_codes(pg) for pg in HDR_PAGES] + [[0x20] * 40])
+    # the header rows are no row contents: take them out of the library again (the blank row stays the last one)
+    n, nh = len(lib), len(HDR_PAGES)
+    assert [lib[n - 1 - nh + i] for i in range(nh)] == [header_codes(pg) for pg in HDR_PAGES] and lib[n - 1] == [0x20] * 40
+    hdr = {(pg, nat): raw[(n - nh + i, nat)] for i, pg in enumerate(HDR_PAGES) for nat in (0, 1)}
+    for nat in (0, 1):
+        tab[(n - nh, nat)], raw[(n - nh, nat)] = tab[(n, nat)], raw[(n, nat)]
+        for k in range(n - nh + 1, n + 1):
+            del tab[(k, nat)], raw[(k, nat)]
+    lib = lib[:n - 1 - nh] + [lib[n - 1]]
+    raw["hdr"] = hdr
     return lib, tab, raw
 
 
@@ -114,6 +147,19 @@ def grid_strings(v, cmap, raw, blank_k, enhanced):
     return [[("".join(enc(c) for c in alt), may[r][k]) for k, alt in enumerate(row)] for r, row in enumerate(rows)]
 
 
+def header_row(v, raw):
+    """header row of a stored version, columns 8..39 (0..7 are the decoder's page number): per column the allowed cell strings - the
+    transmitted character (presentation by TtxFormatL1), at the columns received with a parity error (v["hbad"]) also a blank"""
+    cells = raw["hdr"][(v["pg"], v["nat"])]["cells"]
+    out = {}
+    for c in range(8, 40):
+        out[c] = {enc(cells[c])}
+        if c in v["hbad"]:
+            cell = list(cells[c]); cell[0] = 0x20
+            out[c].add(enc(cell))
+    return out
+
+
 def row_matches(alt, gr):
     """-> None or the first differing column"""
     er, may = alt
@@ -148,7 +194,12 @@ def damage(rnd, pk, act, override_cols):
     a = act["a"]
     if kind == "ok":
         return pk
-    if a in ("Header", "Filler"):
+    if kind == "htxt":
+        # wrong parity (1 or 3 bit errors) in the header text bytes of the named columns
+        for c in f["cols"]:
+            for bit in rnd.sample(range(8), 3 if rnd.random() < 0.2 else 1):
+                pk[2 + c] ^= 1 << bit
+    elif a in ("Header", "Filler"):
         flip2(rnd, pk, HDR_BYTES[kind])
         if rnd.random() < 0.3:          # a burst: one more (correctable) error in another protected byte
             other = [b for b in range(0, 10) if b not in HDR_BYTES[kind]]
@@ -257,7 +308,7 @@ def compile_beh(seed, beh, lib, tab, raw):
     has_x26 = bool(override)
     # positions whose character the enhancement data of a packet of this behaviour supply (computed by TLC: Out.ovr)
     supplied = {(r, c) for st in steps if st["act"]["a"] == "X26" for (r, c) in beh["ovr"][st["act"]["e"] - 1]}
-    lines, checks = [], []
+    lines, checks = ["V"], []          # V: network / channel switch events are reported too (there must be none)
     pkidx = 0
     opened = {}                       # magazine -> (pg, sub, packet index of its header)
     intact = set()                    # keys of intact headers so far
@@ -272,7 +323,7 @@ def compile_beh(seed, beh, lib, tab, raw):
         lines.append("P " + ttx.hexpk(pk)); pkidx += 1
         for v in st["term"]:
             pending.discard((v["pg"], v["sub"]))
-        if a["a"] == "Header" and a["flt"]["f"] == "ok":
+        if a["a"] == "Header" and hdr_ok(a["flt"]):
             intact.add((a["pg"], a["sub"]))
             pending.add((a["pg"], a["sub"]))
         checks.append(("ev", len(lines) - 1, set(intact)))
@@ -283,7 +334,7 @@ def compile_beh(seed, beh, lib, tab, raw):
             for lvl in levels:
                 lines.append("F %x %x %d 3" % (v["pg"], v["sub"], lvl))
                 grid = grid_strings(v, cmap, raw, blank_k, lvl == 15)
-                checks.append(("page", len(lines) - 1, dict(exp, lvl=lvl, grid=grid, count_ev=(lvl == 15))))
+                checks.append(("page", len(lines) - 1, dict(exp, lvl=lvl, grid=grid, hrow=header_row(v, raw), count_ev=(lvl == 15))))
             lines.append("F %x 3f7f 1 1" % v["pg"])
             checks.append(("wild", len(lines) - 1, exp))
             lines.append("C %x %x" % (v["pg"], v["sub"]))
@@ -294,7 +345,7 @@ def compile_beh(seed, beh, lib, tab, raw):
         if a["a"] in ("Header", "Filler"):
             if a["flt"]["f"] == "page":
                 opened.clear()
-            elif a["a"] == "Header" and a["flt"]["f"] == "ok":
+            elif a["a"] == "Header" and hdr_ok(a["flt"]):
                 opened[m] = (a["pg"], a["sub"], pkidx)
             else:
                 opened.pop(m, None)
@@ -308,7 +359,7 @@ def compile_beh(seed, beh, lib, tab, raw):
                                       # decoder may already hold the newer version (it may store earlier, never later)
         lines.append("F %x %x 15 3" % (v["pg"], v["sub"]))
         grid = grid_strings(v, cmap, raw, blank_k, True)
-        checks.append(("page", len(lines) - 1, dict(pg=v["pg"], sub=v["sub"], lvl=15, grid=grid, count_ev=False, final=True)))
+        checks.append(("page", len(lines) - 1, dict(pg=v["pg"], sub=v["sub"], lvl=15, grid=grid, hrow=header_row(v, raw), count_ev=False, final=True)))
         lines.append("N %x %x" % (v["pg"], v["sub"]))
         checks.append(("nav", len(lines) - 1, dict(pg=v["pg"], sub=v["sub"], links=v["links"], row24=v["rows"][23] != [0], final=True)))
     return lines, checks
@@ -324,6 +375,9 @@ def compare(lines, checks, got):
         g = got[i]
         if kind == "ev":
             pk += 1
+            if g.get("ev2"):
+                return ("diverge:events:network", "packet %d raises the events %s: no 8/30 packet was sent, nothing may announce a network "
+                        "or a channel switch" % (pk, g["ev2"]))
             for pg, sub in g["ev"]:
                 events.append((pk, pg, sub))
                 if (pg, sub) not in e:
@@ -374,6 +428,14 @@ def compare(lines, checks, got):
                 return ("diverge:fetch%s:%s" % ("15" if e["lvl"] == 15 else "", what),
                         "%s%s row %d column %d: spec %s%s, fetched %s" % (where, ln, r, c, ec, " (or one of %d other allowed contents of the row)" % (len(alts) - 1) if len(alts) > 1 else "", gc))
             row0.setdefault((i if e.get("final") else e["at"], e["pg"], e["sub"]), {})[e["lvl"]] = g["rows"][0]
+            for c in range(8, 40):
+                gc = g["rows"][0][11 * c:11 * c + 11]
+                if gc not in e["hrow"][c]:
+                    ec, gd = dec(sorted(e["hrow"][c])[-1], 0), dec(gc, 0)
+                    what = ["char", "foreground", "background", "flash", "conceal", "size"][next(k for k in range(6) if ec[k] != gd[k])]
+                    return ("diverge:fetch%s:header-%s" % ("15" if e["lvl"] == 15 else "", what),
+                            "%s%s header row column %d: transmitted %s%s, fetched %s" % (where, ln, c, ec,
+                            " (received with a parity error: a blank is allowed too)" if len(e["hrow"][c]) > 1 else "", gd))
             if e.get("count_ev"):
                 n = sum(1 for (k, pg, sub) in events if pg == e["pg"] and sub == e["sub"] and (e["hdr"] or 0) < k <= e["at"])
                 if n != 1:
@@ -416,7 +478,7 @@ def fkey(f):
         return "link"
     if f["f"] == "trip":
         return "trip"
-    return f["f"]
+    return f["f"]           # incl. "htxt"
 
 
 def faults_of(beh):
@@ -440,7 +502,8 @@ def shape(beh):
             s += str(a["l"])
         if a["flt"]["f"] != "ok":
             s += ":" + fkey(a["flt"]) + (str(a["flt"]["j"]) if a["flt"]["f"] == "trip" else "") + \
-                (str(a["flt"]["col"]) if a["flt"]["f"] == "parc" else "") + (str(a["flt"]["k"]) if a["flt"]["f"] == "link" else "")
+                (str(a["flt"]["col"]) if a["flt"]["f"] == "parc" else "") + (str(a["flt"]["k"]) if a["flt"]["f"] == "link" else "") + \
+                ("-".join(str(c) for c in sorted(a["flt"]["cols"])) if a["flt"]["f"] == "htxt" else "")
         m = (a["pg"] >> 8) if a["a"] == "Header" else a["m"]
         out.append(s + ("8" if m == 8 else ""))
     return beh["mode"][0] + " " + " ".join(out)
@@ -572,9 +635,10 @@ def units_of(pk):
     return hb, trip, pno
 
 
-def twin_pass(ctx, drv, bases, lib, tab, per_base, err2_per_base):
+def twin_pass(ctx, drv, bases, lib, tab, per_base, err2_per_base, htxt_per_base=0):
     """one bit error in a protected unit = the error-free run; two bit errors in the address / designation of a non-header packet =
-    the run without the packet"""
+    the run without the packet; a parity error in a header text byte = the error-free run (events, cache content, every other page)
+    except for the fetched header row of that page"""
     rnd = random.Random(ctx.seed * 13 + 1)
     scripts, jobs = [], []         # jobs: (variant script index, twin script index, skip position in twin or None, description, beh)
     for beh in bases:
@@ -592,9 +656,12 @@ def twin_pass(ctx, drv, bases, lib, tab, per_base, err2_per_base):
         tail = ["F %x 3f7f %d 2" % (pg, lvl) for pg in pages for lvl in (1, 15, 25)] + ["N %x 3f7f" % pg for pg in pages] + ["L"]
         clean = ["V"] + ["P " + ttx.hexpk(p) for p in pks] + tail
         ci = len(scripts); scripts.append(clean)
-        units, err2 = [], []
+        units, err2, htxt = [], [], []
         for i, pk in enumerate(pks):
             hb, trip, pno = units_of(pk)
+            if pno == 0:
+                pg = (((_INV[pk[0]] & 7) or 8) << 8) | _INV[pk[2]] | (_INV[pk[3]] << 4)
+                htxt += [(i, [(2 + c, bit)], pg) for c in range(8, 40) for bit in range(8)]
             for b in hb:
                 for bit in range(8):
                     units.append((i, [(b, bit)]))
@@ -615,6 +682,14 @@ def twin_pass(ctx, drv, bases, lib, tab, per_base, err2_per_base):
             v = list(clean); v[1 + i] = "P " + ttx.hexpk(pk)
             scripts.append(v)
             jobs.append((len(scripts) - 1, ci, None, "one bit error: packet %d byte/bit %s" % (i + 1, flips), beh))
+        rnd.shuffle(htxt)
+        for (i, flips, pg) in htxt[:htxt_per_base]:
+            pk = list(pks[i])
+            for b, bit in flips:
+                pk[b] ^= 1 << bit
+            v = list(clean); v[1 + i] = "P " + ttx.hexpk(pk)
+            scripts.append(v)
+            jobs.append((len(scripts) - 1, ci, ("htxt", pg), "parity error in the header text: packet %d (header of %x) byte/bit %s" % (i + 1, pg, flips), beh))
         dropped = {}
         for (i, flips) in err2[:err2_per_base]:
             pk = list(pks[i])
@@ -644,6 +719,24 @@ def twin_pass(ctx, drv, bases, lib, tab, per_base, err2_per_base):
             continue
         bl = list(b["lines"])
         vv = list(v)
+        if isinstance(skip, tuple):
+            # the page with the damaged header text itself is not compared (its header row shows a blank); everything else is: events
+            # incl. network events, the other pages, the links, the cache content
+            al = list(a["lines"])
+            own = "F %x " % skip[1]
+            keep = [k for k in range(len(vv)) if not vv[k].startswith(own)]
+            if len(bl) == len(vv) == len(al) and [al[k] for k in keep] == [bl[k] for k in keep]:
+                ctx.validated()
+            else:
+                n = min(len(al), len(bl), len(vv))
+                k = next((i for i in keep if i < n and al[i] != bl[i]), n)
+                what = vv[k].split()[0] if k < len(vv) else "end"
+                ctx.violate("replay", "twin:htxt:%s" % {"P": "events", "F": "fetch", "N": "links", "L": "cache-content"}.get(what, what),
+                            "%s changes the result of command %d (%s): %s instead of %s\npackets: %s"
+                            % (d, k + 1, vv[k][:60] if k < len(vv) else "", str(bl[k])[:300] if k < len(bl) else None,
+                               str(al[k])[:300] if k < len(al) else None, [brief_act(st["act"]) for st in beh["steps"]]),
+                            dict(kind="twin", script=v, clean=scripts[ti], skip=list(skip)))
+            continue
         if skip is not None and len(bl) > skip:
             # the damaged packet must have had no effect at all: no events of its own, everything else as without it
             own = bl[skip]
@@ -674,6 +767,8 @@ QUICK_GEN = [  # (cfg, behaviours per stratum, cap)
     ("Gen_TtxFaults_x26", 1, 450),
     ("Gen_TtxFaults_modes", 40, 0),       # every column triplet mode x parity error in its column: all behaviours
     ("Gen_TtxFaults_flof", 40, 0),        # X/27/0 over stored links, every protected unit: all behaviours
+    ("Gen_TtxFaults_htxt", 1, 500),       # parity errors in the header text, rolling header pages of one magazine
+    ("Gen_TtxFaults_htxt8", 1, 250),      # ... with a second magazine (8)
 ]
 THOROUGH_GEN = [
     ("Gen_TtxFaults_retx8", 40, 0),
@@ -683,6 +778,8 @@ THOROUGH_GEN = [
     ("Gen_TtxFaults_retxx", 20, 0),
     ("Gen_TtxFaults_modes", 1000, 0),
     ("Gen_TtxFaults_flof", 1000, 0),
+    ("Gen_TtxFaults_htxt", 2, 0),
+    ("Gen_TtxFaults_htxt8", 2, 0),
 ]
 
 
@@ -699,7 +796,8 @@ def run(ctx):
                         "sent with even parity, EN 300 706 table 25); the statement excepts these positions, both outcomes are accepted",
                         "a page retransmitted without the erase flag repeats the enhancement data (X/26) of its stored version",
                         "a damaged parity byte has an odd number of bit errors (an even number is undetectable by any decoder)",
-                        "consistent header text (no channel switch inferred)"]
+                        "consistent header text as transmitted (no channel switch); a damaged header text byte has an odd number of bit errors",
+                        "header text is data, not address or control: a header with damaged text still terminates and opens pages"]
     drv = vbuild.build_driver("drv_ttx")
     lib, tab, raw = setup(ctx)
 
@@ -728,7 +826,7 @@ def run(ctx):
         ctx.add_mc(old, "MC TtxAssembly with fault actions")
         if old.violation:
             ctx.violate("mc", "mc:%s:%s" % (old.violation["kind"], old.violation["name"]), old.violation["text"][:3000])
-    behs, bases = [], []
+    behs, bases, hbases = [], [], []
     for (cfg, per, cap), g in zip(QUICK_GEN if quick else THOROUGH_GEN, res[1:-1]):
         ctx.add_mc(g, "GEN " + cfg)
         faulty = [t for t in g.tr if faults_of(t)]
@@ -736,6 +834,8 @@ def run(ctx):
         ctx.notes.append("%s: %d behaviours, %d with faults in %d strata, %d replayed" % (cfg, g.n_tr, len(faulty), len({shape(b) for b in faulty}), len(sel)))
         behs += sel
         bases += [t for t in g.tr if not faults_of(t)]
+        if "htxt" in cfg:       # transmissions of four and more pages with rolling headers: bases of the header text twins
+            hbases += [t for t in sel if sum(1 for st in t["steps"] if st["act"]["a"] == "Header") >= 4]
     g = res[-1]
     ctx.add_mc(g, "GEN simulate")
     ctx.notes.append("random walks: %d" % len(g.tr))
@@ -751,7 +851,14 @@ def run(ctx):
     # bases of the twin pass: random walks, and fault-free transmissions of a page whose FLOF links change (X/27/0 over stored links)
     relink = [b for b in bases if len({st["act"]["l"] for st in b["steps"] if st["act"]["a"] == "Flof"}) > 1]
     tb = walks[:8 if quick else 30] + relink[:2 if quick else 12]
-    n = twin_pass(ctx, drv, tb, lib, tab, per_base=260 if quick else 100000, err2_per_base=40 if quick else 100000)
+    n = twin_pass(ctx, drv, tb, lib, tab, per_base=260 if quick else 100000, err2_per_base=40 if quick else 100000,
+                  htxt_per_base=40 if quick else 100000)
+    # header text twins: the intended (fault-free) transmissions of the header text models, several pages of a magazine stored under a
+    # reference header (the walks hold too few headers for that); X/28, 8/30 inserted as above (an identified network: a channel
+    # switch inferred from a damaged header would be announced by a NETWORK event)
+    rnd.shuffle(hbases)
+    n += twin_pass(ctx, drv, hbases[:6 if quick else 60], lib, tab, per_base=30 if quick else 100000, err2_per_base=0,
+                   htxt_per_base=60 if quick else 100000)
     if tb:
         ctx.sample(dict(source="twin pass base", mode=tb[0]["mode"], packets=[brief_act(st["act"]) for st in tb[0]["steps"]]))
     ctx.notes.append("damaged transmissions replayed: %d, single-bit / address-fault variants replayed: %d" % (len(behs), n))
@@ -765,6 +872,11 @@ def replay(ctx, rp):
         clean, v, skip = r["clean"], r["script"], r.get("skip")
         res = core.run_seq_driver([drv], [clean, v], env=vbuild.san_env())
         a, b = res[0]["lines"], list(res[1]["lines"])
+        if isinstance(skip, list):
+            keep = [k for k in range(len(v)) if not v[k].startswith("F %x " % skip[1])]
+            if len(a) != len(b) or [a[k] for k in keep if k < len(a)] != [b[k] for k in keep if k < len(b)]:
+                ctx.violate("replay", rp["key"], "the run with the damaged header text still differs from its twin", r)
+            return
         if skip is not None and len(b) > skip:
             own = b[skip]; del b[skip]
             if own.get("ev") or own.get("ev2"):
